@@ -162,7 +162,8 @@ def t1_bounds(rule, tier):
         return (36, 34)
     if rule == 1:
         return (12, 10)
-    return (8, 6) if tier == "quick" else (10, 8)
+    # thorough covers every Spanish/French word completely (longest: 12 bytes decomposed)
+    return (8, 6) if tier == "quick" else (14, 12)
 
 
 def g_t1(tier, cfgs=("s",), rules=(0, 1, 2, 3)):
@@ -171,7 +172,7 @@ def g_t1(tier, cfgs=("s",), rules=(0, 1, 2, 3)):
         out.append(I("t1_comparer", cfg=c, flags=UW(4), cap=60, rss=0.5))
         for r in rules:
             k, w = t1_bounds(r, tier)
-            out.append(I("t1_accept", cfg=c, defs=["RULE=%d" % r, "KMAX=%d" % k, "WMAX=%d" % w], flags=UW(max(k, w) + 2), cap=900, rss=2.0))
+            out.append(I("t1_accept", cfg=c, defs=["RULE=%d" % r, "KMAX=%d" % k, "WMAX=%d" % w], flags=UW(max(k, w) + 2), cap=1800, rss=2.0))
     return out
 
 
@@ -189,7 +190,7 @@ def g_t3_lemma(tier, cfgs=("s",), rules=(0, 1, 2, 3)):
     for c in cfgs:
         for r in rules:
             k, w = t1_bounds(r, tier)
-            out.append(I("t3_lemma", cfg=c, defs=["RULE=%d" % r, "KMAX=%d" % k, "WMAX=%d" % w], flags=UW(max(k, w) + 2), cap=1500, rss=2.5))
+            out.append(I("t3_lemma", cfg=c, defs=["RULE=%d" % r, "KMAX=%d" % k, "WMAX=%d" % w], flags=UW(max(k, w) + 2), cap=3000, rss=4.0))
     return out
 
 
@@ -260,7 +261,7 @@ P("C10", lambda t: [I("k5_features"), I("k5_default"), I("k9_create"), I("p7_loa
 P("C11", lambda t: [I("k4_birthday"), I("k9_create"), I("k8_crypt"), I("p7_store")] + g_k3() + [I("k6_store")])
 P("C12", lambda t: [I("k8_crypt"), I("k8_crypt", defs=["PWMAX=20"], cap=600, rss=3.0)] + g_p3(t) + g_k2()[1:3] + g_k3()
   if t == "thorough" else [I("k8_crypt")] + g_p3(t) + g_k2()[1:3] + g_k3())
-P("C13", lambda t: g_api() + [I("k5_features"), I("k5_default"), I("p2_layout")] + g_p5() + g_k3())
+P("C13", lambda t: g_api() + [I("k5_features"), I("k5_default"), I("p2_layout"), I("p6_auto")] + g_p5() + g_k3())
 P("C14", lambda t: g_p3(t) + g_p4(t) + g_t1_safety() + g_t1(t) + g_p5() + g_p6() + [I("p7_load"), I("k8_crypt")])
 P("C15", lambda t: [I("k9_create"), I("p7_load"), I("h_free"), I("h_inject")] + g_p5())
 P("C16", lambda t: [I("k8_crypt"), I("k9_create"), I("p2_layout"), I("p7_load"), I("h_free"), I("p6_wipe")] + g_p5())
